@@ -23,6 +23,7 @@ type KeySpec struct {
 	Kid     []byte
 	BaseIV  []byte
 	X, Y, D []byte // nil: absent
+	YSign   *bool  // when set, y is written as a bool (compressed point)
 	K       []byte // symmetric
 	Extra   []KV
 	Pair    *KeyPair // the Go key it was derived from (nil for symmetric/custom)
@@ -74,7 +75,10 @@ func (k *KeySpec) Item() *refcbor.Item {
 	if k.X != nil {
 		add(-2, refcbor.Bstr(k.X))
 	}
-	if k.Y != nil {
+	if k.YSign != nil {
+		// compressed point: y is the sign bit (RFC 9053 section 7.1.1)
+		add(-3, refcbor.Bool(*k.YSign))
+	} else if k.Y != nil {
 		add(-3, refcbor.Bstr(k.Y))
 	}
 	if k.D != nil {
@@ -142,6 +146,17 @@ func genKeySpec(t *tape.Tape) *KeySpec {
 			a := algForCurve(priv.Curve)
 			ks.Alg = &a
 		}
+		if t.Bool(1, 12, "keyspec.ec.compressed") {
+			// a peer that writes compressed points; x is the key's own or any
+			// string of the right length (about half of which are not the
+			// abscissa of a curve point)
+			b := t.Bool(1, 2, "keyspec.ec.ysign")
+			ks.YSign = &b
+			if t.Bool(1, 2, "keyspec.ec.anyx") {
+				ks.X = t.Bytes(size, "keyspec.ec.x")
+			}
+			ks.Pair = nil // not the generated pair any more
+		}
 		ks.Desc = "EC2 " + kp.Name
 	case 1:
 		kp := poolEd[t.Choose(len(poolEd), "keyspec.ed")]
@@ -153,6 +168,11 @@ func genKeySpec(t *tape.Tape) *KeySpec {
 			ks.D = append([]byte{}, priv[:32]...)
 			if t.Bool(1, 4, "keyspec.okp.nox") {
 				ks.X = nil
+			}
+			if t.Bool(1, 10, "keyspec.okp.d64") {
+				// a peer that writes Go's 64-byte ed25519.PrivateKey (seed
+				// followed by the public key) into d: twice the curve's size
+				ks.D = append([]byte{}, priv...)
 			}
 		}
 		if t.Bool(1, 2, "keyspec.alg") {
